@@ -243,5 +243,8 @@ CHECKS["C02"] = {
          "what": "Unmarshal{Int,Int64,Int32,Uint,Uint64,Uint32,IntID,UintID} on typed inputs (int, int64, int32, uint64) with symbolic 64-bit values: accepted => mathematically unchanged; in-range => accepted"},
         {"pkg": "graphql", "harness": "Harness_C02_stringInts", "reach": ["c02.strings"], "workers": 6, "quick": {"sample_models": 200, "sample_every": 3},
          "what": "the same functions on string / json.Number inputs from a 30-entry boundary grid"},
+        {"probe": "core", "harness": "Harness_C02_args", "setup": "Setup_C02_args", "reach": ["c02.coerced", "c02.rejected"], "workers": 6, "sched": "first",
+         "configs_quick": ["single", "follow"], "configs_thorough": ["single", "follow", "funcsyn", "omitptr"], "quick": {"sample_models": 60},
+         "what": "generated field_*_args / unmarshalInput* / unmarshalN/O* on a 23-case argument corpus (literals, variables, defaults, explicit null, nested inputs, single-value-to-list incl. nested lists, enum, custom scalar, failures): resolver receives exactly the annotated coerced values"},
     ],
 }
